@@ -101,6 +101,9 @@ def eval_expression(expr: str, context: dict) -> Any:
                     # Escape special characters
                     value = escape_special_string_characters(value)
 
+                    # Double curly brackets are un-escaped below: keep the ones of the value
+                    value = value.replace("{", "{{").replace("}", "}}")
+
                     inner_expression_values.append(value)
                 string_expression = re.sub(
                     expression_pattern,
